@@ -141,7 +141,8 @@ func Discharge(cfg *SolverCfg, obls []*Obligation) {
 		go func(o *Obligation) {
 			defer wg.Done()
 			defer func() { <-sem }()
-			q := Query(o.Assump, o.Goal, false)
+			as, g := withHints(o.Assump, o.Goal)
+			q := Query(as, g, false)
 			if len(q) > 4<<20 {
 				o.Status = "failed-unknown"
 				o.Output = fmt.Sprintf("verification condition too large (%d bytes)", len(q))
